@@ -100,6 +100,12 @@ def needs_quoting(string: str, allow_reserved: bool, allow_num: bool) -> bool:
 
     r = _re_ident_or_num if allow_num else _re_ident
     isalnum = r.fullmatch(string)
+    if isalnum and not (
+        string[0] == '_' or string[0].isalpha() or string[0].isdecimal()
+    ):
+        # \w also matches non-decimal numerics (e.g. superscript digits),
+        # which the lexer does not accept as the start of an identifier
+        isalnum = None
 
     string = string.lower()
 
